@@ -32,28 +32,23 @@ func (s *SecurityAdapters) CreateChainMiddleware() func(http.Handler) http.Handl
 		withLogging := middleware.EnhancedLoggingMiddleware(s.logger)(next)
 		withAccessLogging := middleware.AccessLoggingMiddleware(s.logger)(withLogging)
 
-		return http.HandlerFunc(func(w http.ResponseWriter, r *http.Request) {
-			if s.securityChain != nil {
-				// Create security request from HTTP request
-				secReq := ports.SecurityRequest{
-					ClientID:      r.RemoteAddr, // This would normally be extracted better
-					Endpoint:      r.URL.Path,
-					Method:        r.Method,
-					BodySize:      r.ContentLength,
-					HeaderSize:    0, // Would need to calculate
-					Headers:       r.Header,
-					IsHealthCheck: r.URL.Path == "/internal/health",
-				}
-
-				result, err := s.securityChain.Validate(r.Context(), secReq)
-				if err != nil || !result.Allowed {
-					// Write appropriate error response
-					http.Error(w, "Security validation failed", http.StatusForbidden)
-					return
+		// Each validator of the chain brings its own middleware (client IP extraction that honours
+		// the trusted-proxy settings, 429 + Retry-After, 413 and a MaxBytesReader around the body).
+		// Mount those, innermost last, instead of re-implementing the checks here with the raw
+		// RemoteAddr (ip:port, i.e. one bucket per connection), a blanket 403 and no body limit.
+		type middlewareProvider interface {
+			CreateMiddleware() func(http.Handler) http.Handler
+		}
+		var handler http.Handler = withAccessLogging
+		if s.securityChain != nil {
+			validators := s.securityChain.GetValidators()
+			for i := len(validators) - 1; i >= 0; i-- {
+				if mp, ok := validators[i].(middlewareProvider); ok {
+					handler = mp.CreateMiddleware()(handler)
 				}
 			}
-			withAccessLogging.ServeHTTP(w, r)
-		})
+		}
+		return handler
 	}
 }
 
